@@ -91,6 +91,21 @@ func (fv *FV) execCall(st *State, ins ssa.CallInstruction, v ssa.Value) {
 	fnv := fv.val(st, cc.Value)
 	fv.oblige(st, "nil", fv.srcLabel(pos, "call "+cc.Value.Name()), sx("distinct", fnv, "0"), pos, nil)
 	sig := cc.Signature()
+	// contract on the named function type (callbacks supplied by the embedding application)
+	if named, ok := cc.Value.Type().(*types.Named); ok && named.Obj().Pkg() != nil {
+		if c := fv.eng.contracts.lookup(named.Obj().Pkg().Path(), named.Obj().Name()); c != nil {
+			vars := map[string]SVal{}
+			pn := paramNames(sig)
+			for i := range pn {
+				if i < len(c.ParamNames) {
+					pn[i] = c.ParamNames[i]
+				}
+				vars[pn[i]] = SVal{args[i], sig.Params().At(i).Type()}
+			}
+			fv.applyContractCore(st, v, c, named.Obj().Pkg(), sig, named.Obj().Name(), vars, nil, pos)
+			return
+		}
+	}
 	fv.havocAll(st, "dynamic call "+fv.srcLabel(pos, cc.Value.Name()))
 	rs := fv.freshResults(st, sig, "dyn")
 	fv.assumeValidResults(st, sig, rs)
@@ -252,6 +267,12 @@ func (fv *FV) callStatic(st *State, ins ssa.CallInstruction, v ssa.Value, callee
 		fv.applyContract(st, ins, v, callee, c, args, bindings, pos)
 		return
 	}
+	if callee.Pkg != nil {
+		if c := fv.eng.contracts.lookup(callee.Pkg.Pkg.Path(), callee.RelString(callee.Pkg.Pkg)); c != nil {
+			fv.applyContract(st, ins, v, callee, c, args, bindings, pos)
+			return
+		}
+	}
 	sig := callee.Signature
 	if callee.Pkg != nil && fv.eng.inRepo(callee.Pkg.Pkg.Path()) || (callee.Parent() != nil) {
 		// repo function without a contract: havoc what it may write (inferred), arbitrary results
@@ -383,7 +404,19 @@ func (fv *FV) callInvoke(st *State, ins ssa.CallInstruction, v ssa.Value, args [
 	if named, ok := cc.Value.Type().(*types.Named); ok && named.Obj().Pkg() != nil {
 		rel := named.Obj().Name() + "." + cc.Method.Name()
 		if c := fv.eng.contracts.lookup(named.Obj().Pkg().Path(), rel); c != nil {
-			fv.applyContractGeneric(st, ins, v, c, named.Obj().Pkg(), sig, cc.Method.Name(), append([]string{recv}, args...), append([]string{"self"}, paramNames(sig)...), pos)
+			pn := paramNames(sig)
+			for i := range pn {
+				if i < len(c.ParamNames) {
+					pn[i] = c.ParamNames[i]
+				}
+			}
+			cpkg := named.Obj().Pkg()
+			if c.Extern {
+				if dp := fv.eng.pkgByPath[c.DeclPkg]; dp != nil && dp.Types != nil {
+					cpkg = dp.Types
+				}
+			}
+			fv.applyContractGeneric(st, ins, v, c, cpkg, sig, cc.Method.Name(), append([]string{recv}, args...), append([]string{"self"}, pn...), pos)
 			return
 		}
 		if fv.eng.inRepo(named.Obj().Pkg().Path()) {
@@ -448,7 +481,13 @@ func (fv *FV) applyContract(st *State, ins ssa.CallInstruction, v ssa.Value, cal
 			cellVars[fvv.Name()] = SVal{bindings[i], fvv.Type()}
 		}
 	}
-	fv.applyContractCore(st, v, c, callee.Pkg.Pkg, sig, callee.Name(), vars, cellVars, pos)
+	pkg := callee.Pkg.Pkg
+	if c.Extern {
+		if dp := fv.eng.pkgByPath[c.DeclPkg]; dp != nil && dp.Types != nil {
+			pkg = dp.Types
+		}
+	}
+	fv.applyContractCore(st, v, c, pkg, sig, callee.Name(), vars, cellVars, pos)
 }
 
 func (fv *FV) applyContractGeneric(st *State, ins ssa.CallInstruction, v ssa.Value, c *Contract, pkg *types.Package, sig *types.Signature, fname string, args []string, names []string, pos token.Pos) {
@@ -675,6 +714,33 @@ func (fv *FV) modItems(ctx *SpecCtx, clauses []*Clause) (items []modItem, err er
 			if !found {
 				specFail("modifies %s: no such field", t)
 			}
+		case strings.HasPrefix(t, "global(") && strings.HasSuffix(t, ")"):
+			e, perr := parseSpecExpr(t[7 : len(t)-1])
+			if perr != nil {
+				return nil, perr
+			}
+			var gv *types.Var
+			switch x := e.(type) {
+			case *ast.Ident:
+				gv, _ = ctx.lookupPkgObj(x.Name).(*types.Var)
+			case *ast.SelectorExpr:
+				if id, ok := x.X.(*ast.Ident); ok {
+					if pn, ok := ctx.lookupPkgObj(id.Name).(*types.PkgName); ok {
+						gv, _ = pn.Imported().Scope().Lookup(x.Sel.Name).(*types.Var)
+					} else {
+						for path, p := range fv.eng.pkgByPath {
+							if p.Types != nil && fv.eng.inRepo(path) && p.Types.Name() == id.Name {
+								gv, _ = p.Types.Scope().Lookup(x.Sel.Name).(*types.Var)
+							}
+						}
+					}
+				}
+			}
+			if gv == nil {
+				specFail("modifies %s: not a package variable", t)
+			}
+			f := fv.family("G|"+gv.Pkg().Path()+"."+gv.Name(), nil, fv.u.sortOf(gv.Type()))
+			items = append(items, modItem{fam: f, cond: "true"})
 		case strings.HasPrefix(t, "elems(") && strings.HasSuffix(t, ")"):
 			ty := ctx.resolveTypeString(t[6 : len(t)-1])
 			items = append(items, modItem{fam: fv.elemFam(ty), cond: "true"})
